@@ -105,6 +105,9 @@ CharBytes(ch, cs) ==
                                   [] cs = "utf-8" -> <<209, 143>> [] OTHER -> <<>>)
            [] ch = "eacute" -> (CASE cs = "latin-1" -> <<233>> [] cs = "utf-8" -> <<195, 169>> [] OTHER -> <<>>)
            [] ch = "alpha"  -> (CASE cs = "utf-8" -> <<206, 177>> [] OTHER -> <<>>)
+           \* the currency sign U+00A4: the second glyph of bk's cell 0x24 (BkCodec.tla: the one documented alias)
+           [] ch = "cur"    -> (CASE cs = "bk" -> <<36>> [] cs = "cp866" -> <<253>> [] cs = "latin-1" -> <<164>>
+                                  [] cs = "utf-8" -> <<194, 164>> [] OTHER -> <<>>)
 
 \* string items: literal character, escape (denoting a character), raw byte <n>
 Ch(c)  == [k |-> "ch",  c |-> c, v |-> 0]
@@ -119,7 +122,7 @@ EscDenotes(c) == CASE c = "n" -> "lf" [] c = "r" -> "cr" [] c = "t" -> "ht" [] c
 Denotes(it) == IF it.k = "esc" THEN EscDenotes(it.c) ELSE it.c
 
 ItemAlphabet ==
-    { Ch(c) : c \in { "A", "z", "d7", "sp", "semi", "dq", "sq", "sl", "ya", "eacute", "alpha", "del" } }
+    { Ch(c) : c \in { "A", "z", "d7", "sp", "semi", "dq", "sq", "sl", "ya", "eacute", "alpha", "del", "cur" } }
     \cup { Esc(c) : c \in { "n", "r", "t", "bs", "dq", "sq", "sl", "x41", "x7e", "x00", "x7f" } }
     \cup { Raw(n) : n \in { 0, 65, 255, 256, MinusOne } }
 
@@ -299,8 +302,9 @@ ZeroOperand ==
 
 \* --- Reject <=> out of range / odd address / negative count / unencodable, stated independently
 MagGE(v, n) == LET p == Pow(n) IN v.hi > p[1] \/ (v.hi = p[1] /\ v.lo >= p[2])
-Repertoire(c) == CASE c = "utf-8" -> { "ya", "eacute", "alpha" } [] c = "latin-1" -> { "eacute" }
-                   [] OTHER -> { "ya" }                                   \* bk, koi8-r, cp866: Cyrillic
+Repertoire(c) == CASE c = "utf-8" -> { "ya", "eacute", "alpha", "cur" } [] c = "latin-1" -> { "eacute", "cur" }
+                   [] c = "koi8-r" -> { "ya" }
+                   [] OTHER -> { "ya", "cur" }                            \* bk, cp866: Cyrillic and the currency sign
 ItemBad(it, c) == IF it.k = "raw" THEN it.v < 0 \/ it.v > 255
                   ELSE \/ AsciiCode(Denotes(it)) < 0 /\ Denotes(it) \notin Repertoire(c)
                        \/ Denotes(it) = "del" /\ c = "bk"             \* the written rule: bk is ASCII only up to 0x7E
